@@ -27,7 +27,7 @@ impl<M: Mac> MObj for WMac<M> {
         self.0.result().code().to_vec()
     }
     fn raw_result(&mut self, n: usize) -> Vec<u8> {
-        let mut o = vec![0u8; n];
+        let mut o = dirty(n);
         self.0.raw_result(&mut o);
         o
     }
@@ -47,7 +47,7 @@ impl<M: Mac + Clone + 'static> MObj for WMacC<M> {
         self.0.result().code().to_vec()
     }
     fn raw_result(&mut self, n: usize) -> Vec<u8> {
-        let mut o = vec![0u8; n];
+        let mut o = dirty(n);
         self.0.raw_result(&mut o);
         o
     }
@@ -78,7 +78,7 @@ impl<D: Digest + Clone + 'static> DigestObj for WDig<D> {
         self.0.input(d)
     }
     fn result(&mut self, n: usize) -> Vec<u8> {
-        let mut o = vec![0u8; n];
+        let mut o = dirty(n);
         self.0.result(&mut o);
         o
     }
@@ -153,18 +153,35 @@ pub fn pbkdf2_with(name: &str, pw: &[u8], salt: &[u8], c: u32, out: &mut [u8]) {
     }
     digest_dispatch!(name, go)
 }
-pub fn hkdf_extract_with(name: &str, salt: &[u8], ikm: &[u8], prk: &mut [u8]) {
+/// "soil/<data>[/fin]" : the digest object handed to HKDF has already absorbed <data> (and, with ":fin", has been finalised)
+pub fn parse_soil(arg: Option<&&str>) -> Option<(Vec<u8>, bool)> {
+    let a = arg?;
+    let p: Vec<&str> = a.split('/').collect();
+    assert!(p[0] == "soil");
+    Some((expand(p[1]), p.len() > 2 && p[2] == "fin"))
+}
+fn soil<D: Digest>(mut d: D, pre: &Option<(Vec<u8>, bool)>) -> D {
+    if let Some((data, fin)) = pre {
+        d.input(data);
+        if *fin {
+            let mut o = dirty(d.output_bytes());
+            d.result(&mut o);
+        }
+    }
+    d
+}
+pub fn hkdf_extract_with(name: &str, salt: &[u8], ikm: &[u8], prk: &mut [u8], pre: &Option<(Vec<u8>, bool)>) {
     macro_rules! go {
         ($e:expr) => {
-            cryptoxide::hkdf::hkdf_extract($e, salt, ikm, prk)
+            cryptoxide::hkdf::hkdf_extract(soil($e, pre), salt, ikm, prk)
         };
     }
     digest_dispatch!(name, go)
 }
-pub fn hkdf_expand_with(name: &str, prk: &[u8], info: &[u8], okm: &mut [u8]) {
+pub fn hkdf_expand_with(name: &str, prk: &[u8], info: &[u8], okm: &mut [u8], pre: &Option<(Vec<u8>, bool)>) {
     macro_rules! go {
         ($e:expr) => {
-            cryptoxide::hkdf::hkdf_expand($e, prk, info, okm)
+            cryptoxide::hkdf::hkdf_expand(soil($e, pre), prk, info, okm)
         };
     }
     digest_dispatch!(name, go)
